@@ -1,11 +1,9 @@
 package rules
 
 import (
-	"fmt"
 	"go/ast"
 	"go/token"
 	"go/types"
-	"reflect"
 	"strings"
 
 	"golang.org/x/tools/go/cfg"
@@ -17,35 +15,37 @@ func init() {
 	register(&core.Property{
 		ID:    "C06",
 		Title: "Truncated or damaged PBF input ends in an error after a correct prefix",
-		Explanation: "Structural necessary conditions, decided for every call site / index expression / path in package osmpbf: " +
-			"(E1) no error returned by a callee is dropped: on every path it is tested, returned or forwarded in a pipeline pair before being overwritten, and every protoscan message loop is followed by a test of msg.Err(); " +
-			"(E2) io.EOF can only originate from the first read of a block; errors of the later io.ReadFull calls pass an EOF→ErrUnexpectedEOF mapping; " +
-			"(E3) each scratch buffer slice `buf[:n]` is preceded on every path by an upper-bound test of n against a constant not above the buffer's size and, for signed n, a lower-bound test; " +
-			"(E4) the blob encoding switch has an error default and the zlib path compares the decompressed length with raw_size; " +
-			"(E5) a header is only accepted through the required-features gate; a block of unexpected type yields an error that travels in that iteration's pair; " +
-			"(E6) every slice/string index or slice expression reachable from the decoding goroutines has a proof from the idiom list (constant, range/loop counter, dominating bounds guard with error exit, counter into a buffer sized by Iterator.Count of the iterator being read), optional message fields are nil-guarded or `required`; " +
+		Explanation: "Structural necessary conditions, decided for every call site / index expression / path in package osmpbf. The rules work on roles, on the control-flow graph (guard facts, dominance) and by finite-domain evaluation of decision functions, following static calls inside the package; the shape of the code (if chain vs switch, branch order, merged guards, locals, extracted helpers) does not matter. " +
+			"(E1) no error returned by a callee is dropped: on every path it is tested, returned or forwarded before being overwritten; wherever a protoscan message's Next() reports no further field, every path looks at its Err() before leaving (in the function or, for a message parameter, in every caller); " +
+			"(E2) io.EOF can only originate from the first read of a block: the io.EOF of any other io.ReadFull (evaluated on the abstract value io.EOF through mappers, inline tests and intermediate callers) cannot reach the caller of the block reader unchanged; " +
+			"(E3) every slice `buf[:n]` of a scratch buffer made with a constant size (followed through parameters and re-slices) is reached only when guard facts, at the slice or at every success return of the function n comes from, establish n <= a constant not above the buffer's size and, for signed n, n >= 0; " +
+			"(E4) a blob that carries data in none of the supported encodings only reaches returns of a non-nil error; on the zlib path the decompressed length is compared with raw_size before data is returned, and that length is the length of the whole decompressed stream: the call that drains the decompressor reads the decompressor itself, not a wrapper limited to raw_size or less; " +
+			"(E5) a header is only accepted through the required-features gate (which may live in a helper); when the reader finds a block whose type is not OSMData, every path sends (or returns to the sending caller) a pair whose Err holds an error created for it and which carries no blob, no path skips the block; " +
+			"(E6) every slice/string index or slice expression reachable from the decoding goroutines has a proof from the idiom list (constant, range key, guard facts establishing index < len with a non-negative index, counter into a buffer sized by Iterator.Count of the iterator driving the loop), optional message fields are nil-guarded or `required`; " +
 			"(E7) no panic call and no unchecked type assertion is reachable from the goroutine roles; " +
-			"(E8) Err maps only io.EOF to nil; " +
-			"(E9) the cached block's string table and parameters are reset before every block, so the range checks of string references run against the block being decoded and a block without a string table is rejected instead of borrowing the previous block's strings. " +
-			"NOT decided: that the delivered prefix is correct (C01/C02), behaviour inside protoscan/protobuf/zlib (including whether a decoding library could itself return io.EOF), hangs inside libraries, memory exhaustion from huge declared sizes, column-length mismatches that neither index out of range nor exhaust an iterator.",
+			"(E8) with a stored error other than io.EOF, no return of Err that can be reached yields a possibly-nil value; " +
+			"(E9) the cached block's string table and parameters are reset before every block (shared with C01.R3), so the range checks of string references run against the block being decoded and a block without a string table is rejected instead of borrowing the previous block's strings. " +
+			"NOT decided: that the delivered prefix is correct (C01/C02), behaviour inside protoscan/protobuf/zlib (including whether a decoding library could itself return io.EOF), hangs inside libraries, memory exhaustion from huge declared sizes, column-length mismatches that neither index out of range nor exhaust an iterator, numeric thresholds other than the constant bounds of E3 and the `raw_size + c` form of E4.",
 		Assumptions: []string{"go/types, go/cfg (x/tools v0.29.0)",
 			"protoscan.Iterator.Count(WireTypeVarint) >= number of successful varint reads of that iterator; an exhausted iterator returns an error (read in protoscan v0.2.1 iterator.go/scalar.go)",
-			"proto.Unmarshal rejects messages lacking `required` fields", "io.ReadFull returns io.EOF only when no byte was read"},
+			"proto.Unmarshal rejects messages lacking `required` fields", "io.ReadFull returns io.EOF only when no byte was read",
+			"bytes.Buffer.ReadFrom / io.ReadAll / io.Copy read their source until io.EOF; io.LimitReader cuts silently at its limit"},
 		LevelText: "Structural necessary conditions of 'damage ends in an error, never silent success or a crash', decided at every error-returning call site, every io.ReadFull, every scratch-buffer slice and every index expression reachable from the decoder goroutines.",
 		LevelNote: "Trusts the type checker and go/cfg, two axioms about protoscan (stated in assumptions), proto.Unmarshal's required-field check and io.ReadFull's contract. Library internals are out of scope.",
-		Technique: "error-discipline dataflow on go/cfg (every path from an error-producing call reaches a test/forward), EOF-provenance rule, guard-dominance for slice bounds and indices with an enumerated idiom list, who-may-panic over goroutine roles",
-		DesignRef: "DESIGN.md §5 C06",
+		Technique: "error-discipline dataflow on go/cfg, finite-domain evaluation (EOF provenance, Err, blob encodings, block-type pairs), guard facts with constant bounds for slices and indices, reader-provenance of the decompressed stream, who-may-panic over goroutine roles",
+		DesignRef: "DESIGN.md §5 C06; checker/ROBUSTNESS.md",
 		Rules: []*core.Rule{
-			{ID: "E1", Floor: 70, Doc: "error discipline: no error dropped; msg.Err() after every protoscan loop", Run: c06E1},
-			{ID: "E2", Floor: 3, Doc: "io.EOF only from the first read of a block", Run: c06E2},
-			{ID: "E3", Floor: 2, Doc: "scratch buffer slices are bounded above (and below when signed)", Run: c06E3},
-			{ID: "E4", Floor: 2, Doc: "blob encoding default error; raw_size comparison", Run: c06E4},
+			{ID: "E1", Floor: 60, Doc: "error discipline: no error dropped; msg.Err() looked at whenever Next() ends (floor: below the number of distinct error-returning callees)", Run: c06E1},
+			{ID: "E2", Floor: 1, Doc: "io.EOF only from the first read of a block (one obligation per io.ReadFull site; a shared read helper is one site)", Run: c06E2},
+			{ID: "E3", Floor: 1, Doc: "scratch buffer slices are bounded above (and below when signed)", Run: c06E3},
+			{ID: "E4", Floor: 3, Doc: "unknown blob encoding is an error; raw_size comparison; the compared length is that of the whole decompressed stream", Run: c06E4},
 			{ID: "E5", Floor: 2, Doc: "required-features gate; unexpected block type travels as an error", Run: c06E5},
-			{ID: "E6", Floor: 20, Doc: "index safety in everything reachable from the decoder goroutines", Run: c06E6},
-			{ID: "E7", Floor: 15, Doc: "no panic / unchecked type assertion reachable from the goroutine roles", Run: c06E7},
+			{ID: "E6", Floor: 12, Doc: "index safety in everything reachable from the decoder goroutines", Run: c06E6},
+			{ID: "E7", Floor: 12, Doc: "no panic / unchecked type assertion reachable from the goroutine roles", Run: c06E7},
 			{ID: "E8", Floor: 2, Doc: "Err maps only io.EOF to nil", Run: c06E8},
 			{ID: "E9", Floor: 6, Doc: "string references are checked against the current block's string table: cached block parameters are reset before each block (shared with C01.R3)", Run: c01R3},
 		},
+		Benign: append(append(append([]core.Mutant{}, c06Benign...), c06Benign2...), c06Benign3...),
 		Mutants: []core.Mutant{
 			{Name: "drop-iterator-error", File: "osmpbf/decode_data.go", Find: "\t\t\tdec.lats, err = msg.Iterator(dec.lats)\n\t\t\tfoundLats = true", Replace: "\t\t\tdec.lats, _ = msg.Iterator(dec.lats)\n\t\t\tfoundLats = true", ExpectRule: "E1", ExpectConstruct: "scanDenseNodes"},
 			{Name: "drop-msg-err", File: "osmpbf/decode_data.go", Find: "\tif msg.Err() != nil {\n\t\treturn msg.Err()\n\t}\n\n\t// we need the offsets", Replace: "\t// we need the offsets", ExpectRule: "E1", ExpectConstruct: "scanPrimitiveBlock"},
@@ -56,6 +56,8 @@ func init() {
 			{Name: "blob-negative-size-unguarded", File: "osmpbf/decode.go", Find: "\tif blobHeader.GetDatasize() < 0 {\n\t\treturn nil, errors.New(\"blob size < 0\")\n\t}\n", Replace: "", ExpectRule: "E3", ExpectConstruct: "blobBuf"},
 			{Name: "blob-limit-above-buffer", File: "osmpbf/decode.go", Find: "if blobHeader.GetDatasize() >= maxBlobSize {", Replace: "if blobHeader.GetDatasize() >= 2*maxBlobSize {", ExpectRule: "E3", ExpectConstruct: "blobBuf"},
 			{Name: "rawsize-check-dropped", File: "osmpbf/decode.go", Find: "\t\tif buf.Len() != int(blob.GetRawSize()) {\n\t\t\treturn nil, fmt.Errorf(\"raw blob data size %d but expected %d\", buf.Len(), blob.GetRawSize())\n\t\t}\n", Replace: "", ExpectRule: "E4", ExpectConstruct: "raw_size"},
+			{Name: "zlib-read-limited-to-rawsize", File: "osmpbf/decode.go", Find: "if _, err = buf.ReadFrom(r); err != nil {", Replace: "if _, err = buf.ReadFrom(io.LimitReader(r, int64(blob.GetRawSize()))); err != nil {", ExpectRule: "E4", ExpectConstruct: "whole-stream"},
+			{Name: "zlib-copyn-rawsize", File: "osmpbf/decode.go", Find: "if _, err = buf.ReadFrom(r); err != nil {", Replace: "if _, err = io.CopyN(buf, r, int64(blob.GetRawSize())); err != nil {", ExpectRule: "E4", ExpectConstruct: "whole-stream"},
 			{Name: "unknown-blob-empty-data", File: "osmpbf/decode.go", Find: "\tdefault:\n\t\treturn nil, errors.New(\"unknown blob data\")", Replace: "\tdefault:\n\t\treturn nil, nil", ExpectRule: "E4", ExpectConstruct: "default"},
 			{Name: "feature-gate-dropped", File: "osmpbf/decode.go", Find: "\t\tif !parseCapabilities[feature] {\n\t\t\treturn nil, fmt.Errorf(\"parser does not have %s capability\", feature)\n\t\t}\n", Replace: "\t\t_ = feature\n", ExpectRule: "E5", ExpectConstruct: "required"},
 			{Name: "wrong-type-block-skipped", File: "osmpbf/decode.go", Find: "\t\t\tif err == nil && blobHeader.GetType() != osmDataType {\n\t\t\t\terr = fmt.Errorf(\"unexpected fileblock of type %s\", blobHeader.GetType())\n\t\t\t}\n", Replace: "\t\t\tif err == nil && blobHeader.GetType() != osmDataType {\n\t\t\t\tcontinue\n\t\t\t}\n", ExpectRule: "E5", ExpectConstruct: "block type"},
@@ -138,6 +140,12 @@ func classifyErrUse(info *types.Info, n ast.Node, errObj types.Object) string {
 				return "kill"
 			}
 		}
+		// stored into a field / element: forwarded
+		for _, l := range s.Lhs {
+			if usesObj(info, l, errObj) {
+				return "use"
+			}
+		}
 		return ""
 	case *ast.ValueSpec, *ast.DeclStmt:
 		return ""
@@ -146,6 +154,30 @@ func classifyErrUse(info *types.Info, n ast.Node, errObj types.Object) string {
 		return "use"
 	}
 	return ""
+}
+
+// c06ErrIndex returns the position of the error in the result tuple of a call expression (-1: none) and the
+// number of results.
+func c06ErrIndex(info *types.Info, call *ast.CallExpr) (int, int) {
+	tv, ok := info.Types[call]
+	if !ok {
+		return -1, 0
+	}
+	errIdx, nres := -1, 1
+	switch t := tv.Type.(type) {
+	case *types.Tuple:
+		nres = t.Len()
+		for i := 0; i < t.Len(); i++ {
+			if isErrorType(t.At(i).Type()) {
+				errIdx = i
+			}
+		}
+	default:
+		if isErrorType(tv.Type) && !tv.IsType() {
+			errIdx = 0
+		}
+	}
+	return errIdx, nres
 }
 
 func c06E1(r *core.R) {
@@ -160,66 +192,22 @@ func c06E1(r *core.R) {
 		if isGenerated(r.P, fi.Decl.Pos()) {
 			continue
 		}
-		par := parentsOf(r.P, fi)
-		// one CFG per function literal / declaration body
-		cfgs := map[ast.Node]*cfg.CFG{}
-		cfgFor := func(n ast.Node) *cfg.CFG {
-			// innermost enclosing function body
-			var body *ast.BlockStmt
-			var key ast.Node
-			for p := n; p != nil; p = par[p] {
-				if fl, ok := p.(*ast.FuncLit); ok {
-					body, key = fl.Body, fl
-					break
-				}
-				if fd, ok := p.(*ast.FuncDecl); ok {
-					body, key = fd.Body, fd
-					break
-				}
-			}
-			if body == nil {
-				return nil
-			}
-			if g, ok := cfgs[key]; ok {
-				return g
-			}
-			g := newCFG(info, body)
-			cfgs[key] = g
-			return g
-		}
+		fi := fi
+		f0 := c01FnOf(r.P, fi)
+		par := f0.par
 		ast.Inspect(fi.Decl.Body, func(n ast.Node) bool {
 			call, ok := n.(*ast.CallExpr)
 			if !ok {
 				return true
 			}
-			tv, ok := info.Types[call]
-			if !ok {
-				return true
-			}
-			// position of the error in the result tuple
-			errIdx, nres := -1, 1
-			switch t := tv.Type.(type) {
-			case *types.Tuple:
-				nres = t.Len()
-				for i := 0; i < t.Len(); i++ {
-					if isErrorType(t.At(i).Type()) {
-						errIdx = i
-					}
-				}
-			default:
-				if isErrorType(tv.Type) && !tv.IsType() {
-					errIdx = 0
-				}
-			}
+			errIdx, nres := c06ErrIndex(info, call)
 			if errIdx < 0 {
 				return true
 			}
 			// conversions / error constructors are not "callee returns an error to be checked"
 			fn := callee(info, call)
-			if fn == nil {
-				if _, isConv := info.Types[call.Fun]; isConv && info.Types[call.Fun].IsType() {
-					return true
-				}
+			if fn == nil && c01IsConversion(info, call) {
+				return true
 			}
 			if isPkgFunc(fn, "errors", "New") || isPkgFunc(fn, "fmt", "Errorf") {
 				return true
@@ -233,1443 +221,266 @@ func c06E1(r *core.R) {
 				}
 			}
 			c := "call@" + fi.Name() + " " + name
-			switch p := par[call].(type) {
+			// the error variable the result is stored in
+			var lhs ast.Expr
+			var stmt ast.Node
+			parent := par[call]
+			for {
+				if pe, ok := parent.(*ast.ParenExpr); ok {
+					parent = par[pe]
+					continue
+				}
+				break
+			}
+			switch p := parent.(type) {
 			case *ast.ReturnStmt:
 				r.OK(c, call.Pos(), "result returned directly")
+				return true
 			case *ast.ExprStmt:
 				r.Bad(c, call.Pos(), "the error returned by `%s` is discarded: damaged input would be accepted silently", src(r.P.Fset, call))
+				return true
+			case *ast.DeferStmt, *ast.GoStmt:
+				r.Bad(c, call.Pos(), "the error returned by `%s` is discarded (deferred / started as a goroutine)", src(r.P.Fset, call))
+				return true
 			case *ast.AssignStmt:
-				if len(p.Rhs) != 1 || len(p.Lhs) != nres {
+				if len(p.Rhs) == 1 && len(p.Lhs) == nres {
+					lhs, stmt = p.Lhs[errIdx], p
+				} else if len(p.Rhs) == len(p.Lhs) && nres == 1 {
+					for i, rh := range p.Rhs {
+						if ast.Unparen(rh) == call {
+							lhs, stmt = p.Lhs[i], p
+						}
+					}
+				}
+				if lhs == nil {
 					r.Unknown(c, call.Pos(), "unrecognised assignment form `%s`", src(r.P.Fset, p))
 					return true
 				}
-				lhs := p.Lhs[errIdx]
-				if id, ok := lhs.(*ast.Ident); ok && id.Name == "_" {
-					r.Bad(c, call.Pos(), "the error returned by `%s` is assigned to _: damaged input would be accepted silently", src(r.P.Fset, call))
-					return true
-				}
-				if f := fieldOf(info, lhs); f != nil {
-					r.OKTrivial(c, call.Pos(), "error stored in field %s (reported by Err/its reader)", f.Name())
-					return true
-				}
-				eo := objOf(info, lhs)
-				if eo == nil {
-					r.Unknown(c, call.Pos(), "error assigned to `%s`", src(r.P.Fset, lhs))
-					return true
-				}
-				g := cfgFor(call)
-				if ok, why := errFlow(info, g, eo, p.Pos()); ok {
-					r.OK(c, call.Pos(), "on every path the error in `%s` is tested, returned or forwarded before being overwritten", eo.Name())
-				} else {
-					r.Bad(c, call.Pos(), "error of `%s`: %s", src(r.P.Fset, call), why)
-				}
 			case *ast.ValueSpec:
-				r.Unknown(c, call.Pos(), "error-returning call in a var declaration")
-			default:
-				// e.g. `return nil, f()` is handled above; call used as an argument
-				if _, isRet := par[par[call]].(*ast.ReturnStmt); isRet {
-					r.OK(c, call.Pos(), "result returned directly")
-				} else if kv, isKV := par[call].(*ast.KeyValueExpr); isKV && kv.Value == call {
-					r.OK(c, call.Pos(), "result forwarded in a composite literal")
-				} else if be, isBin := par[call].(*ast.BinaryExpr); isBin && (be.Op == token.NEQ || be.Op == token.EQL) {
-					r.OK(c, call.Pos(), "result compared with nil in place")
-				} else {
-					r.Unknown(c, call.Pos(), "error-returning call in an unrecognised context (%T)", par[call])
+				if len(p.Values) == 1 && len(p.Names) == nres {
+					lhs, stmt = p.Names[errIdx], p
+				} else if len(p.Values) == len(p.Names) && nres == 1 {
+					for i, rh := range p.Values {
+						if ast.Unparen(rh) == call {
+							lhs, stmt = p.Names[i], p
+						}
+					}
 				}
+				if lhs == nil {
+					r.Unknown(c, call.Pos(), "unrecognised var declaration form")
+					return true
+				}
+			default:
+				// e.g. `return nil, f()` is handled above; call used as an operand
+				if _, isRet := par[parent].(*ast.ReturnStmt); isRet && nres == 1 {
+					r.OK(c, call.Pos(), "result returned directly")
+				} else if kv, isKV := parent.(*ast.KeyValueExpr); isKV && ast.Unparen(kv.Value) == call {
+					r.OK(c, call.Pos(), "result forwarded in a composite literal")
+				} else if _, _, isNil := c01NilCmp(c06AsExpr(parent)); isNil {
+					r.OK(c, call.Pos(), "result compared with nil in place")
+				} else if oc, isCall := parent.(*ast.CallExpr); isCall && nres == 1 && c01Callee(pk, oc) != nil {
+					r.OK(c, call.Pos(), "result handed on as an argument of %s", src(r.P.Fset, oc.Fun))
+				} else {
+					r.Unknown(c, call.Pos(), "error-returning call in an unrecognised context (%T)", parent)
+				}
+				return true
+			}
+			if id, ok := lhs.(*ast.Ident); ok && id.Name == "_" {
+				r.Bad(c, call.Pos(), "the error returned by `%s` is assigned to _: damaged input would be accepted silently", src(r.P.Fset, call))
+				return true
+			}
+			if f := fieldOf(info, lhs); f != nil {
+				r.OKTrivial(c, call.Pos(), "error stored in field %s (reported by Err/its reader)", f.Name())
+				return true
+			}
+			eo := objOf(info, lhs)
+			if eo == nil {
+				r.Unknown(c, call.Pos(), "error assigned to `%s`", src(r.P.Fset, lhs))
+				return true
+			}
+			f := f0.innermost(call)
+			if ok, why := errFlow(info, f.g, eo, stmt.Pos()); ok {
+				r.OK(c, call.Pos(), "on every path the error in `%s` is tested, returned or forwarded before being overwritten", eo.Name())
+			} else {
+				r.Bad(c, call.Pos(), "error of `%s`: %s", src(r.P.Fset, call), why)
 			}
 			return true
 		})
-		// protoscan message loops: for X.Next() { ... } must be followed by a use of X.Err() on the way out
-		ast.Inspect(fi.Decl.Body, func(n ast.Node) bool {
-			fs, ok := n.(*ast.ForStmt)
-			if !ok || fs.Cond == nil {
-				return true
-			}
-			call, ok := ast.Unparen(fs.Cond).(*ast.CallExpr)
-			if !ok || !isMethod(callee(info, call), "github.com/paulmach/protoscan.Message", "Next") {
-				return true
-			}
-			msgObj := rootObj(info, call.Fun.(*ast.SelectorExpr).X)
-			c := "msgloop@" + fi.Name() + " " + msgObj.Name()
-			g := cfgFor(fs)
-			// from the loop's exit (for.done), every path must reach a call msg.Err() before leaving the function
-			var done *cfg.Block
-			for _, b := range g.Blocks {
-				if b.Kind == cfg.KindForDone && b.Stmt == fs {
-					done = b
-				}
-			}
-			if done == nil {
-				r.Unknown(c, fs.Pos(), "loop exit not found in the control-flow graph")
-				return true
-			}
-			isErrCall := func(x ast.Node) bool {
-				found := false
-				ast.Inspect(x, func(y ast.Node) bool {
-					if c2, ok := y.(*ast.CallExpr); ok && isMethod(callee(info, c2), "github.com/paulmach/protoscan.Message", "Err") {
-						if rootObj(info, c2.Fun.(*ast.SelectorExpr).X) == msgObj {
-							found = true
-						}
-					}
-					return !found
-				})
-				return found
-			}
-			okAll := true
-			seen := map[*cfg.Block]bool{done: true}
-			work := []*cfg.Block{done}
-			for len(work) > 0 && okAll {
-				b := work[len(work)-1]
-				work = work[:len(work)-1]
-				hit := false
-				for _, nd := range b.Nodes {
-					if isErrCall(nd) {
-						hit = true
-						break
-					}
-					// re-initialising the message (msg.Reset / msg = ...) before looking at Err loses it
-					if c2, ok := nd.(*ast.ExprStmt); ok {
-						if ce, ok := c2.X.(*ast.CallExpr); ok && isMethod(callee(info, ce), "github.com/paulmach/protoscan.Message", "Reset") && rootObj(info, ce.Fun.(*ast.SelectorExpr).X) == msgObj {
-							okAll = false
-						}
-					}
-				}
-				if hit {
+		// protoscan messages: wherever X.Next() is tested, the outcome "no further field" must be followed on every path by
+		// a look at X.Err() before the function is left (a truncated or malformed message ends the iteration early)
+		for _, body := range c06Bodies(fi) {
+			f := c01FnOfBody(r.P, fi, body)
+			for _, blk := range f.g.Blocks {
+				if !blk.Live {
 					continue
 				}
-				if len(b.Succs) == 0 {
-					okAll = false
+				cond := f.condOf(blk)
+				if cond == nil {
+					continue
 				}
-				for _, s := range b.Succs {
-					if !seen[s] {
-						seen[s] = true
-						work = append(work, s)
+				var msgObj types.Object
+				var nextCall *ast.CallExpr
+				ast.Inspect(cond, func(x ast.Node) bool {
+					if c2, ok := x.(*ast.CallExpr); ok && isMethod(callee(info, c2), protoscanMsg, "Next") {
+						if sel, ok := ast.Unparen(c2.Fun).(*ast.SelectorExpr); ok {
+							msgObj, nextCall = c01RootObj(info, sel.X), c2
+						}
+					}
+					return true
+				})
+				if msgObj == nil {
+					continue
+				}
+				c := "msgloop@" + fi.Name() + " " + msgObj.Name()
+				v := c01Eval(info, cond, func(a ast.Expr) c01Tri {
+					if ast.Unparen(a) == ast.Expr(nextCall) {
+						return c01F
+					}
+					return c01U
+				})
+				okAll := true
+				for si, s := range blk.Succs {
+					if (si == 0 && v == c01F) || (si == 1 && v == c01T) {
+						continue
+					}
+					if !c06ErrLooked(r.P, f, s, 0, msgObj, 0) {
+						okAll = false
 					}
 				}
+				if okAll {
+					r.OK(c, cond.Pos(), "when %s.Next() reports no further field, every path looks at %s.Err() before leaving the function (or its caller does) or resetting the message", msgObj.Name(), msgObj.Name())
+				} else {
+					r.Bad(c, cond.Pos(), "after `%s.Next()` reports no further field a path leaves (or resets the message) without looking at %s.Err(): a truncated or malformed message ends the loop early and is accepted silently", msgObj.Name(), msgObj.Name())
+				}
 			}
-			if okAll {
-				r.OK(c, fs.Pos(), "every path from the loop exit looks at %s.Err() before leaving the function or resetting the message", msgObj.Name())
-			} else {
-				r.Bad(c, fs.Pos(), "after `for %s.Next()` a path leaves (or resets the message) without looking at %s.Err(): a truncated or malformed message ends the loop early and is accepted silently", msgObj.Name(), msgObj.Name())
-			}
-			return true
-		})
+		}
 	}
 	r.Stat("error_returning_calls", ncalls)
 }
 
-// ---------------------------------------------------------------- E2
-
-// isEOFMapper reports whether fn is a function `func(err error) error` that returns io.ErrUnexpectedEOF when err == io.EOF and err otherwise.
-func isEOFMapper(r *core.R, fn *types.Func) bool {
-	pk := r.P.Pkg("osmpbf")
-	if fn == nil || fn.Pkg() != pk.Types {
-		return false
+func c06AsExpr(n ast.Node) ast.Expr {
+	if e, ok := n.(ast.Expr); ok {
+		return e
 	}
-	fi := findFunc(pk, funcName(fn))
-	if fi == nil || len(fi.Decl.Body.List) != 2 {
-		return false
-	}
-	info := pk.TypesInfo
-	ifs, ok := fi.Decl.Body.List[0].(*ast.IfStmt)
-	if !ok || len(ifs.Body.List) != 1 || ifs.Else != nil {
-		return false
-	}
-	be, ok := ast.Unparen(ifs.Cond).(*ast.BinaryExpr)
-	if !ok || be.Op != token.EQL || !isIOVar(info, be.Y, "EOF") {
-		return false
-	}
-	sig := fn.Type().(*types.Signature)
-	if sig.Params().Len() != 1 || objOf(info, be.X) != sig.Params().At(0) {
-		return false
-	}
-	ret, ok := ifs.Body.List[0].(*ast.ReturnStmt)
-	if !ok || len(ret.Results) != 1 || !isIOVar(info, ret.Results[0], "ErrUnexpectedEOF") {
-		return false
-	}
-	ret2, ok := fi.Decl.Body.List[1].(*ast.ReturnStmt)
-	return ok && len(ret2.Results) == 1 && objOf(info, ret2.Results[0]) == sig.Params().At(0)
+	return &ast.BadExpr{}
 }
 
-func isIOVar(info *types.Info, e ast.Expr, name string) bool {
-	sel, ok := ast.Unparen(e).(*ast.SelectorExpr)
-	if !ok {
-		return false
-	}
-	o := info.Uses[sel.Sel]
-	return o != nil && o.Pkg() != nil && o.Pkg().Path() == "io" && o.Name() == name
-}
-
-func c06E2(r *core.R) {
-	m := modelOrAnchor(r)
-	if m == nil {
-		return
-	}
-	info := m.info
-	// the block reader: the function of the reader role that calls >= 2 functions reaching io.ReadFull
-	var blockReader *FuncInfo
-	for _, u := range m.sortedUnits() {
-		fd, ok := u.node.(*ast.FuncDecl)
-		if !ok || !u.roles["reader"] {
-			continue
-		}
-		n := 0
-		for _, fn := range u.calls {
-			if tu := m.unitOfFunc(fn); tu != nil && m.unitCalls(tu, "io", "ReadFull") {
-				n++
-			}
-		}
-		if n >= 2 {
-			blockReader = findFunc(m.pk, funcName(info.Defs[fd.Name].(*types.Func)))
-		}
-	}
-	if blockReader == nil {
-		r.Anchor("function that reads one file block through several io.ReadFull helpers")
-		return
-	}
-	// order of the reading calls inside the block reader
-	g := newCFG(info, blockReader.Decl.Body)
-	dom := dominators(g)
-	type rc struct {
-		call *ast.CallExpr
-		fn   *types.Func
-	}
-	var reads []rc
-	ast.Inspect(blockReader.Decl.Body, func(n ast.Node) bool {
-		if call, ok := n.(*ast.CallExpr); ok {
-			if fn := callee(info, call); fn != nil && fn.Pkg() == m.pk.Types {
-				if tu := m.unitOfFunc(fn); tu != nil && m.unitCalls(tu, "io", "ReadFull") {
-					reads = append(reads, rc{call, fn})
-				}
-			}
-		}
-		return true
-	})
-	first := -1
-	for i := range reads {
-		all := true
-		for j := range reads {
-			if i != j && !posDominates(g, dom, reads[i].call.Pos(), reads[j].call.Pos()) {
-				all = false
-			}
-		}
-		if all {
-			first = i
-		}
-	}
-	if first < 0 {
-		r.Unknown("first-read@"+blockReader.Name(), blockReader.Decl.Pos(), "no read call dominates all the others")
-		return
-	}
-	for i, rd := range reads {
-		fi := findFunc(m.pk, funcName(rd.fn))
-		par := parentsOf(r.P, fi)
-		ast.Inspect(fi.Decl.Body, func(n ast.Node) bool {
-			call, ok := n.(*ast.CallExpr)
-			if !ok || !isPkgFunc(callee(info, call), "io", "ReadFull") {
-				return true
-			}
-			c := "readfull@" + fi.Name()
-			if i == first {
-				r.OK(c, call.Pos(), "first read of a block (its call dominates the other reads in %s): io.EOF here means the stream ended on a block boundary", blockReader.Name())
-				return true
-			}
-			// the error must flow through an EOF mapper before being returned:
-			// idiom: if _, err := io.ReadFull(..); err != nil { return ..., mapper(err) }
-			as, _ := par[call].(*ast.AssignStmt)
-			var eo types.Object
-			if as != nil && len(as.Lhs) == 2 {
-				eo = objOf(info, as.Lhs[1])
-			}
-			if eo == nil {
-				r.Unknown(c, call.Pos(), "io.ReadFull result not assigned to (n, err)")
-				return true
-			}
-			bad := ""
-			nret := 0
-			ast.Inspect(fi.Decl.Body, func(x ast.Node) bool {
-				ret, ok := x.(*ast.ReturnStmt)
-				if !ok || len(ret.Results) == 0 {
-					return true
-				}
-				last := ret.Results[len(ret.Results)-1]
-				if !usesObj(info, last, eo) {
-					return true
-				}
-				nret++
-				if c2, ok := ast.Unparen(last).(*ast.CallExpr); ok && isEOFMapper(r, callee(info, c2)) && len(c2.Args) == 1 && objOf(info, c2.Args[0]) == eo {
-					return true
-				}
-				bad = src(r.P.Fset, ret)
-				return true
-			})
-			// inline mapping: if err == io.EOF { err = io.ErrUnexpectedEOF } directly after — accept when present
-			if bad != "" && inlineEOFMapping(info, fi.Decl.Body, eo) {
-				bad = ""
-			}
-			switch {
-			case nret == 0:
-				r.Unknown(c, call.Pos(), "the read error is never returned")
-			case bad != "":
-				r.Bad(c, call.Pos(), "`%s` returns the error of a read in the middle of a block unchanged: when the stream is cut exactly before this read io.ReadFull yields io.EOF, which the scanner reports as a successful end", bad)
-			default:
-				r.OK(c, call.Pos(), "not the first read of a block: its error is returned through an io.EOF→io.ErrUnexpectedEOF mapping")
-			}
-			return true
-		})
-	}
-}
-
-func inlineEOFMapping(info *types.Info, body *ast.BlockStmt, eo types.Object) bool {
-	found := false
-	ast.Inspect(body, func(n ast.Node) bool {
-		ifs, ok := n.(*ast.IfStmt)
-		if !ok {
-			return true
-		}
-		be, ok := ast.Unparen(ifs.Cond).(*ast.BinaryExpr)
-		if !ok || be.Op != token.EQL || objOf(info, be.X) != eo || !isIOVar(info, be.Y, "EOF") || len(ifs.Body.List) != 1 {
-			return true
-		}
-		if as, ok := ifs.Body.List[0].(*ast.AssignStmt); ok && len(as.Lhs) == 1 && objOf(info, as.Lhs[0]) == eo && isIOVar(info, as.Rhs[0], "ErrUnexpectedEOF") {
-			found = true
-		}
-		return true
-	})
-	return found
-}
-
-// ---------------------------------------------------------------- E3
-
-func c06E3(r *core.R) {
-	m := modelOrAnchor(r)
-	if m == nil {
-		return
-	}
-	info := m.info
-	// scratch buffers: locals of the spawner `make([]byte, K)` passed to the block reader
-	type buf struct {
-		obj types.Object
-		k   int64
-	}
-	var bufs []buf
-	ast.Inspect(m.start.Decl.Body, func(n ast.Node) bool {
-		as, ok := n.(*ast.AssignStmt)
-		if !ok || len(as.Lhs) != 1 || len(as.Rhs) != 1 {
-			return true
-		}
-		call, ok := as.Rhs[0].(*ast.CallExpr)
-		if !ok || builtinName(info, call) != "make" || len(call.Args) != 2 {
-			return true
-		}
-		if sl, ok := info.TypeOf(call.Args[0]).Underlying().(*types.Slice); !ok || !types.Identical(sl.Elem(), types.Typ[types.Byte]) {
-			return true
-		}
-		if k, ok := constInt(info, call.Args[1]); ok {
-			bufs = append(bufs, buf{objOf(info, as.Lhs[0]), k})
-		}
-		return true
-	})
-	// the callee receiving them (same for all call sites) and the parameter each buffer binds to
-	paramK := map[types.Object]int64{}
-	var target *FuncInfo
-	ast.Inspect(m.start.Decl.Body, func(n ast.Node) bool {
-		call, ok := n.(*ast.CallExpr)
-		if !ok {
-			return true
-		}
-		fn := callee(info, call)
-		if fn == nil || fn.Pkg() != m.pk.Types {
-			return true
-		}
-		sig := fn.Type().(*types.Signature)
-		for i, a := range call.Args {
-			for _, b := range bufs {
-				if objOf(info, a) == b.obj && i < sig.Params().Len() {
-					fi := findFunc(m.pk, funcName(fn))
-					if target != nil && target.Obj != fn {
-						r.Unknown("scratch-buffer callee", call.Pos(), "scratch buffers are passed to more than one function")
-					}
-					target = fi
-					// parameter object inside the declaration
-					pi := 0
-					for _, fld := range fi.Decl.Type.Params.List {
-						for _, nm := range fld.Names {
-							if pi == i {
-								if old, ok := paramK[info.Defs[nm]]; ok && old != b.k {
-									r.Unknown("scratch-buffer callee", call.Pos(), "parameter bound to buffers of different sizes")
-								}
-								paramK[info.Defs[nm]] = b.k
-							}
-							pi++
-						}
-					}
-				}
-			}
-		}
-		return true
-	})
-	if target == nil {
-		r.Anchor("function receiving the reader's scratch buffers")
-		return
-	}
-	// slice expressions param[:n]
-	ast.Inspect(target.Decl.Body, func(n ast.Node) bool {
-		se, ok := n.(*ast.SliceExpr)
-		if !ok {
-			return true
-		}
-		po := objOf(info, se.X)
-		k, isBuf := paramK[po]
-		if !isBuf {
-			return true
-		}
-		c := "slice@" + target.Name() + " " + po.Name()
-		if se.Low != nil || se.High == nil || se.Max != nil {
-			r.Unknown(c, se.Pos(), "unrecognised slice form `%s`", src(r.P.Fset, se))
-			return true
-		}
-		ok2, why := c06BoundProof(r, m, target, se.High, k)
-		if ok2 {
-			r.OK(c, se.Pos(), "`%s` with cap %d: %s", src(r.P.Fset, se), k, why)
-		} else {
-			r.Bad(c, se.Pos(), "`%s` (buffer of %d bytes): %s; a damaged size field makes the reader goroutine panic and the process crash", src(r.P.Fset, se), k, why)
-		}
-		return true
-	})
-}
-
-// c06BoundProof proves 0 <= hi <= k where hi is either a local assigned from a call result, or a getter call on
-// a local assigned from a call result; the proof obligations are discharged inside the callee: every success
-// return is dominated by `v >= C → error` (C <= k) and, for signed v, `v < 0 → error`.
-func c06BoundProof(r *core.R, m *pbfModel, fi *FuncInfo, hi ast.Expr, k int64) (bool, string) {
-	info := m.info
-	hi = ast.Unparen(hi)
-	var local types.Object
-	var getter *types.Func
-	switch x := hi.(type) {
-	case *ast.Ident:
-		local = objOf(info, x)
-	case *ast.CallExpr:
-		getter = callee(info, x)
-		if sel, ok := x.Fun.(*ast.SelectorExpr); ok && getter != nil && strings.HasPrefix(getter.Name(), "Get") && len(x.Args) == 0 {
-			local = objOf(info, sel.X)
-		}
-	}
-	if local == nil {
-		return false, "bound `" + src(r.P.Fset, hi) + "` is not a local or a getter on a local"
-	}
-	// defining call
-	var defCall *ast.CallExpr
-	resIdx := -1
+// c06Bodies lists the body of a declaration and of every function literal inside it.
+func c06Bodies(fi *FuncInfo) []*ast.BlockStmt {
+	out := []*ast.BlockStmt{fi.Decl.Body}
 	ast.Inspect(fi.Decl.Body, func(n ast.Node) bool {
-		as, ok := n.(*ast.AssignStmt)
-		if !ok || len(as.Rhs) != 1 {
-			return true
-		}
-		call, ok := as.Rhs[0].(*ast.CallExpr)
-		if !ok {
-			return true
-		}
-		for i, l := range as.Lhs {
-			if objOf(info, l) == local && as.Pos() < hi.Pos() {
-				defCall, resIdx = call, i
-			}
+		if fl, ok := n.(*ast.FuncLit); ok {
+			out = append(out, fl.Body)
 		}
 		return true
 	})
-	if defCall == nil {
-		return false, "the bound's value does not come from a call in this function"
-	}
-	fn := callee(info, defCall)
-	cf := findFunc(m.pk, funcName(fn))
-	if fn == nil || cf == nil || fn.Pkg() != m.pk.Types {
-		return false, "the bound comes from a function outside the package"
-	}
-	// in callee: success returns (last result nil) and the expression returned at resIdx
-	g := newCFG(info, cf.Decl.Body)
-	dom := dominators(g)
-	nret := 0
-	var fail string
-	var proof string
-	ast.Inspect(cf.Decl.Body, func(n ast.Node) bool {
-		ret, ok := n.(*ast.ReturnStmt)
-		if !ok || len(ret.Results) <= resIdx {
-			return true
-		}
-		if id, ok := ast.Unparen(ret.Results[len(ret.Results)-1]).(*ast.Ident); !ok || id.Name != "nil" {
-			return true // error return
-		}
-		nret++
-		rv := objOf(info, ret.Results[resIdx])
-		if rv == nil {
-			fail = "success return value is not a variable"
-			return true
-		}
-		// value expression the guards must speak about
-		isVal := func(e ast.Expr) bool {
-			e = ast.Unparen(e)
-			if getter == nil {
-				return objOf(info, e) == rv
-			}
-			c, ok := e.(*ast.CallExpr)
-			if !ok || callee(info, c) != getter {
-				return false
-			}
-			sel, ok := c.Fun.(*ast.SelectorExpr)
-			return ok && objOf(info, sel.X) == rv
-		}
-		var vt types.Type
-		if getter == nil {
-			vt = rv.Type()
-		} else {
-			vt = getter.Type().(*types.Signature).Results().At(0).Type()
-		}
-		signed := true
-		if bt, ok := vt.Underlying().(*types.Basic); ok && bt.Info()&types.IsUnsigned != 0 {
-			signed = false
-		}
-		upper, lower := false, !signed
-		rb, _ := blockOf(g, ret.Pos())
-		for _, b := range g.Blocks {
-			if !b.Live || len(b.Succs) != 2 || b == rb || !dom[rb][b] {
-				continue
-			}
-			cond := lastExpr(b)
-			if cond == nil {
-				continue
-			}
-			tr := reachableFrom([]*cfg.Block{b.Succs[0]}, nil)
-			if tr[rb] {
-				continue
-			}
-			// disjuncts of the condition
-			var disj []ast.Expr
-			var split func(e ast.Expr)
-			split = func(e ast.Expr) {
-				e = ast.Unparen(e)
-				if be, ok := e.(*ast.BinaryExpr); ok && be.Op == token.LOR {
-					split(be.X)
-					split(be.Y)
-					return
-				}
-				disj = append(disj, e)
-			}
-			split(cond)
-			for _, d := range disj {
-				be, ok := d.(*ast.BinaryExpr)
-				if !ok {
-					continue
-				}
-				if cv, okc := constInt(info, be.Y); okc && isVal(be.X) {
-					switch be.Op {
-					case token.GEQ:
-						if cv <= k+0 && cv-1 <= k {
-							upper = true
-							proof = fmt.Sprintf("%s: `%s` (limit %d <= %d) returns an error", cf.Name(), src(r.P.Fset, d), cv, k)
-						}
-					case token.GTR:
-						if cv <= k {
-							upper = true
-							proof = fmt.Sprintf("%s: `%s` returns an error", cf.Name(), src(r.P.Fset, d))
-						}
-					case token.LSS:
-						if cv <= 0 {
-							lower = true
-						}
-					}
-				}
-			}
-		}
-		if !upper {
-			fail = fmt.Sprintf("in %s no dominating test bounds the value by a constant <= the buffer size %d before it is returned", cf.Name(), k)
-		} else if !lower {
-			fail = fmt.Sprintf("the value is a signed %s and %s has no `< 0` test before returning it: a negative size slices the buffer with a negative bound", vt.String(), cf.Name())
-		}
-		return true
-	})
-	if nret == 0 {
-		return false, "no success return found in " + cf.Name()
-	}
-	if fail != "" {
-		return false, fail
-	}
-	// the local must not be reassigned between the call and the slice
-	if countAssignsTo(info, fi.Decl.Body, local, defCall.End(), hi.Pos()) > 0 {
-		return false, "the bound is reassigned between the checked call and the slice"
-	}
-	return true, proof
+	return out
 }
 
-// ---------------------------------------------------------------- E4
-
-func c06E4(r *core.R) {
-	pk := r.P.Pkg("osmpbf")
-	info := pk.TypesInfo
-	// getData: the function with a switch over Blob encodings: found as the function whose body tests blob.Raw / blob.ZlibData
-	var fi *FuncInfo
-	for _, f := range allFuncs(pk) {
-		if isGenerated(r.P, f.Decl.Pos()) {
-			continue
-		}
-		n := 0
-		ast.Inspect(f.Decl.Body, func(x ast.Node) bool {
-			if fld := fieldOf(info, nodeExpr(x)); fld != nil && (fld.Name() == "Raw" || fld.Name() == "ZlibData") && namedPath(selRecv(info, x)) == core.ModulePath+"/osmpbf/internal/osmpbf.Blob" {
-				n++
-			}
-			return true
-		})
-		if n >= 2 {
-			fi = f
-		}
-	}
-	if fi == nil {
-		r.Anchor("function dispatching on the blob encoding (Raw / ZlibData)")
-		return
-	}
-	var sw *ast.SwitchStmt
-	ast.Inspect(fi.Decl.Body, func(n ast.Node) bool {
-		if s, ok := n.(*ast.SwitchStmt); ok && sw == nil {
-			sw = s
-		}
-		return true
-	})
-	if sw == nil {
-		r.Unknown("encoding-switch@"+fi.Name(), fi.Decl.Pos(), "no switch statement over the blob encodings")
-		return
-	}
-	var def *ast.CaseClause
-	for _, c := range sw.Body.List {
-		cc := c.(*ast.CaseClause)
-		if cc.List == nil {
-			def = cc
-		}
-	}
-	c := "encoding-switch@" + fi.Name() + " default"
-	if def == nil {
-		r.Bad(c, sw.Pos(), "no default branch: a blob in an unknown encoding falls through")
-	} else {
-		ok := false
-		if len(def.Body) > 0 {
-			if ret, isRet := def.Body[len(def.Body)-1].(*ast.ReturnStmt); isRet && len(ret.Results) == 2 {
-				if id, isId := ast.Unparen(ret.Results[1]).(*ast.Ident); !isId || id.Name != "nil" {
-					ok = true
-				}
-			}
-		}
-		r.Check(ok, c, def.Pos(), "unknown encodings return a non-nil error", "the default branch does not return an error: a blob in an unsupported encoding is decoded as an empty block (silent success)")
-	}
-	// zlib path: returns of X.Bytes() dominated by a `!=` test mentioning GetRawSize whose true edge errors
-	g := newCFG(info, fi.Decl.Body)
-	dom := dominators(g)
-	n := 0
-	ast.Inspect(fi.Decl.Body, func(x ast.Node) bool {
-		ret, ok := x.(*ast.ReturnStmt)
-		if !ok || len(ret.Results) != 2 {
-			return true
-		}
-		call, ok := ast.Unparen(ret.Results[0]).(*ast.CallExpr)
-		if !ok || !isMethod(callee(info, call), "bytes.Buffer", "Bytes") {
-			return true
-		}
-		n++
-		cc := "raw_size@" + fi.Name()
-		rb, _ := blockOf(g, ret.Pos())
-		proved := false
-		for _, b := range g.Blocks {
-			if !b.Live || len(b.Succs) != 2 || !dom[rb][b] || b == rb {
-				continue
-			}
-			be, ok := ast.Unparen(lastExpr(b)).(*ast.BinaryExpr)
-			if !ok || be.Op != token.NEQ {
-				continue
-			}
-			mentionsRaw, mentionsLen := false, false
-			ast.Inspect(be, func(y ast.Node) bool {
-				if c2, ok := y.(*ast.CallExpr); ok {
-					if fn := callee(info, c2); fn != nil {
-						if fn.Name() == "GetRawSize" {
-							mentionsRaw = true
-						}
-						if isMethod(fn, "bytes.Buffer", "Len") {
-							mentionsLen = true
-						}
-					}
-					if builtinName(info, c2) == "len" {
-						mentionsLen = true
-					}
-				}
-				return true
-			})
-			tr := reachableFrom([]*cfg.Block{b.Succs[0]}, nil)
-			if mentionsRaw && mentionsLen && !tr[rb] {
-				proved = true
-			}
-		}
-		r.Check(proved, cc, ret.Pos(), "the decompressed length is compared with raw_size before the data is returned; a mismatch returns an error",
-			"decompressed data is returned without comparing its length with the blob's raw_size: a truncated or corrupt compressed blob is decoded as if complete")
-		return true
-	})
-	if n == 0 {
-		r.Anchor("return of the decompressed buffer in " + fi.Name())
-	}
-}
-
-func nodeExpr(n ast.Node) ast.Expr {
-	e, _ := n.(ast.Expr)
-	if e == nil {
-		return &ast.BadExpr{}
-	}
-	return e
-}
-
-func selRecv(info *types.Info, n ast.Node) types.Type {
-	sel, ok := n.(*ast.SelectorExpr)
-	if !ok {
-		return nil
-	}
-	if s := info.Selections[sel]; s != nil {
-		return s.Recv()
-	}
-	return nil
-}
-
-// ---------------------------------------------------------------- E5
-
-func c06E5(r *core.R) {
-	m := modelOrAnchor(r)
-	if m == nil {
-		return
-	}
-	info := m.info
-	// (a) header decoding: function returning (*Header, error)
-	var hdr *FuncInfo
-	for _, f := range allFuncs(m.pk) {
-		sig := f.Obj.Type().(*types.Signature)
-		if sig.Results().Len() == 2 && namedPath(sig.Results().At(0).Type()) == core.ModulePath+"/osmpbf.Header" && sig.Recv() == nil {
-			hdr = f
-		}
-	}
-	if hdr == nil {
-		r.Anchor("function decoding the header block into *Header")
-	} else {
-		c := "required-features gate@" + hdr.Name()
-		g := newCFG(info, hdr.Decl.Body)
-		dom := dominators(g)
-		// the gate: a range loop over required features whose body returns an error under a negative capability lookup
-		var gate *ast.RangeStmt
-		ast.Inspect(hdr.Decl.Body, func(n ast.Node) bool {
-			rs, ok := n.(*ast.RangeStmt)
-			if !ok || rs.Value == nil {
+// c06IsErrLook: node n looks at msg.Err() of the message held by msgObj, or hands the message to a function of the
+// package every path of which does.
+func c06IsErrLook(p *core.Program, f *c01Fn, n ast.Node, msgObj types.Object, depth int) bool {
+	info := f.info
+	return c01ContainsCall(n, func(call *ast.CallExpr) bool {
+		if isMethod(callee(info, call), protoscanMsg, "Err") {
+			if sel, ok := ast.Unparen(call.Fun).(*ast.SelectorExpr); ok && c01RootObj(info, sel.X) == msgObj {
 				return true
 			}
-			// X derives from GetRequiredFeatures()
-			fromReq := false
-			check := func(e ast.Expr) {
-				ast.Inspect(e, func(y ast.Node) bool {
-					if c2, ok := y.(*ast.CallExpr); ok {
-						if fn := callee(info, c2); fn != nil && fn.Name() == "GetRequiredFeatures" {
-							fromReq = true
-						}
-					}
-					return true
-				})
-			}
-			check(rs.X)
-			if o := objOf(info, rs.X); o != nil {
-				ast.Inspect(hdr.Decl.Body, func(y ast.Node) bool {
-					if as, ok := y.(*ast.AssignStmt); ok && len(as.Lhs) == 1 && objOf(info, as.Lhs[0]) == o {
-						check(as.Rhs[0])
-					}
-					return true
-				})
-			}
-			if !fromReq {
-				return true
-			}
-			v := objOf(info, rs.Value)
-			// body: if !table[v] { return nil, err }
-			for _, st := range rs.Body.List {
-				ifs, ok := st.(*ast.IfStmt)
-				if !ok {
-					continue
-				}
-				ue, ok := ast.Unparen(ifs.Cond).(*ast.UnaryExpr)
-				if !ok || ue.Op != token.NOT {
-					continue
-				}
-				ix, ok := ast.Unparen(ue.X).(*ast.IndexExpr)
-				if !ok || objOf(info, ix.Index) != v {
-					continue
-				}
-				if _, isMap := info.TypeOf(ix.X).Underlying().(*types.Map); !isMap {
-					continue
-				}
-				if len(ifs.Body.List) > 0 {
-					if ret, ok := ifs.Body.List[len(ifs.Body.List)-1].(*ast.ReturnStmt); ok && len(ret.Results) == 2 {
-						if id, isId := ast.Unparen(ret.Results[1]).(*ast.Ident); !isId || id.Name != "nil" {
-							gate = rs
-						}
-					}
-				}
-			}
-			return true
-		})
-		if gate == nil {
-			r.Bad(c, hdr.Decl.Pos(), "no loop over the header's required_features that returns an error for a feature the parser does not support: files needing unsupported features are decoded anyway")
-		} else {
-			// every success return is dominated by the loop's exit
-			var done *cfg.Block
-			for _, b := range g.Blocks {
-				if b.Kind == cfg.KindRangeDone && b.Stmt == gate {
-					done = b
-				}
-			}
-			okAll, n := true, 0
-			ast.Inspect(hdr.Decl.Body, func(x ast.Node) bool {
-				ret, ok := x.(*ast.ReturnStmt)
-				if !ok || len(ret.Results) != 2 {
-					return true
-				}
-				if id, ok := ast.Unparen(ret.Results[1]).(*ast.Ident); !ok || id.Name != "nil" {
-					return true
-				}
-				n++
-				rb, _ := blockOf(g, ret.Pos())
-				if done == nil || !(rb == done || dom[rb][done]) {
-					okAll = false
-				}
-				return true
-			})
-			r.Check(okAll && n > 0, c, gate.Pos(), "every success return is dominated by the exit of the required-features loop, whose body returns an error for an unknown feature",
-				"a success return is reachable without passing the required-features loop")
 		}
-	}
-	// (b) reader loop: unexpected block type
-	rd := m.goOf("reader")
-	if rd == nil {
-		r.Anchor("reader goroutine")
-		return
-	}
-	c := "block type@" + m.units[rd.lit].name
-	var loop *ast.ForStmt
-	ast.Inspect(rd.lit.Body, func(n ast.Node) bool {
-		if fs, ok := n.(*ast.ForStmt); ok && loop == nil {
-			loop = fs
-		}
-		return true
-	})
-	if loop == nil {
-		r.Anchor("reader loop")
-		return
-	}
-	// 1. the type test
-	var errObj types.Object
-	var typeTest *ast.IfStmt
-	ast.Inspect(loop.Body, func(n ast.Node) bool {
-		ifs, ok := n.(*ast.IfStmt)
-		if !ok {
-			return true
-		}
-		found := false
-		ast.Inspect(ifs.Cond, func(y ast.Node) bool {
-			be, ok := y.(*ast.BinaryExpr)
-			if !ok || be.Op != token.NEQ {
-				return true
-			}
-			call, ok := ast.Unparen(be.X).(*ast.CallExpr)
-			if !ok {
-				return true
-			}
-			if fn := callee(info, call); fn == nil || fn.Name() != "GetType" {
-				return true
-			}
-			if s, ok := constString(info, be.Y); ok && s == "OSMData" {
-				found = true
-			}
-			return true
-		})
-		if !found {
-			return true
-		}
-		// body assigns a fresh error to a variable
-		for _, st := range ifs.Body.List {
-			if as, ok := st.(*ast.AssignStmt); ok && len(as.Lhs) == 1 && len(as.Rhs) == 1 && isErrorType(info.TypeOf(as.Lhs[0])) {
-				if call, ok := as.Rhs[0].(*ast.CallExpr); ok {
-					if fn := callee(info, call); isPkgFunc(fn, "fmt", "Errorf") || isPkgFunc(fn, "errors", "New") {
-						errObj = objOf(info, as.Lhs[0])
-						typeTest = ifs
-					}
-				}
-			}
-		}
-		return true
-	})
-	if typeTest == nil {
-		r.Bad(c, loop.Pos(), "the reader loop has no test `GetType() != \"OSMData\"` that turns an unexpected block into an error: blocks of other types are decoded as data or skipped silently")
-		return
-	}
-	// 2. the pair sent in this iteration carries errObj when it is non-nil and carries data only otherwise
-	var sent types.Object
-	var send *ast.SendStmt
-	ast.Inspect(loop.Body, func(n ast.Node) bool {
-		if s, ok := n.(*ast.SendStmt); ok {
-			send = s
-			sent = objOf(info, s.Value)
-		}
-		return true
-	})
-	if sent == nil {
-		r.Unknown(c, typeTest.Pos(), "the value sent to the workers is not a local variable")
-		return
-	}
-	okErrPair, okDataFirst := false, false
-	var dataPos, errPos token.Pos
-	ast.Inspect(loop.Body, func(n ast.Node) bool {
-		as, ok := n.(*ast.AssignStmt)
-		if !ok || len(as.Lhs) != 1 || objOf(info, as.Lhs[0]) != sent {
-			return true
-		}
-		cl, ok := as.Rhs[0].(*ast.CompositeLit)
-		if !ok {
-			return true
-		}
-		hasErr := false
-		for _, e := range cl.Elts {
-			if kv, ok := e.(*ast.KeyValueExpr); ok {
-				if id, ok := kv.Key.(*ast.Ident); ok && id.Name == "Err" && objOf(info, kv.Value) == errObj {
-					hasErr = true
-				}
-			}
-		}
-		if hasErr {
-			// must be under `if errObj != nil`
-			par := parentsOf(r.P, m.start)
-			if ifs, ok := par[par[as]].(*ast.IfStmt); ok {
-				if be, ok := ast.Unparen(ifs.Cond).(*ast.BinaryExpr); ok && be.Op == token.NEQ && objOf(info, be.X) == errObj {
-					okErrPair = true
-					errPos = as.Pos()
-				}
-			}
-		} else {
-			dataPos = as.Pos()
-		}
-		return true
-	})
-	okDataFirst = dataPos.IsValid() && errPos.IsValid() && dataPos < errPos && typeTest.Pos() < errPos && errPos < send.Pos()
-	if okErrPair && okDataFirst {
-		r.OK(c, typeTest.Pos(), "a block whose type is not OSMData sets %s; the pair sent in the same iteration is replaced by {Err: %s} whenever %s != nil", errObj.Name(), errObj.Name(), errObj.Name())
-	} else {
-		r.Bad(c, typeTest.Pos(), "the error produced for an unexpected block type does not reach the pair sent in that iteration (error pair under `%s != nil`: %v, ordered type-test < error pair < send: %v)", errObj.Name(), okErrPair, okDataFirst)
-	}
-}
-
-// ---------------------------------------------------------------- E6
-
-func c06E6(r *core.R) {
-	m := modelOrAnchor(r)
-	if m == nil {
-		return
-	}
-	info := m.info
-	// scope: declared functions reachable from the goroutine roles (worker, reader) and header decoding (consumer via spawner)
-	n := 0
-	for _, u := range m.sortedUnits() {
-		fd, ok := u.node.(*ast.FuncDecl)
-		if !ok || isGenerated(r.P, fd.Pos()) {
-			continue
-		}
-		if !(u.roles["worker"] || u.roles["reader"] || u.roles["serializer"] || m.reachedFromSpawner(u)) {
-			continue
-		}
-		if fd == m.start.Decl {
-			continue // the spawner's own indexing (dec.inputs[i] ...) belongs to C02.Q1; scratch buffers to E3
-		}
-		fi := u.fi
-		var g *cfg.CFG
-		var dom map[*cfg.Block]map[*cfg.Block]bool
-		lazy := func() {
-			if g == nil {
-				g = newCFG(info, fd.Body)
-				dom = dominators(g)
-			}
-		}
-		par := parentsOf(r.P, fi)
-		ast.Inspect(fd.Body, func(x ast.Node) bool {
-			switch e := x.(type) {
-			case *ast.IndexExpr:
-				t := info.TypeOf(e.X)
-				if t == nil {
-					return true
-				}
-				switch t.Underlying().(type) {
-				case *types.Slice, *types.Basic, *types.Array, *types.Pointer:
-				default:
-					return true // maps, generics
-				}
-				if tv, ok := info.Types[e.X]; ok && tv.IsType() {
-					return true
-				}
-				n++
-				lazy()
-				c := "index@" + fi.Name() + " " + src(r.P.Fset, e)
-				if ok, why := c06IndexProof(r, info, fi, g, dom, par, e); ok {
-					r.OK(c, e.Pos(), "%s", why)
-				} else {
-					r.Bad(c, e.Pos(), "%s: an out-of-range reference in a damaged block makes this goroutine panic, which kills the calling process", why)
-				}
-			case *ast.SliceExpr:
-				// scratch-buffer slices are E3
-				if _, isParamBuf := ast.Unparen(e.X).(*ast.Ident); isParamBuf && e.High != nil {
-					if _, okc := constInt(info, e.High); !okc {
-						if types.Identical(info.TypeOf(e.X), types.NewSlice(types.Typ[types.Byte])) {
+		if tf := c01Callee(f.pk, call); tf != nil && depth < 3 {
+			for i, a := range call.Args {
+				if c01RootObj(info, a) == msgObj && namedPath(info.TypeOf(a)) == protoscanMsg {
+					if po := c01Param(info, tf, i); po != nil {
+						tfn := c01FnOf(p, tf)
+						// every normal path of the callee looks at Err
+						if !c06PathWithoutErrLook(p, tfn, tfn.g.Blocks[0], 0, po, depth+1, false) {
 							return true
 						}
 					}
 				}
-				n++
-				c := "slice@" + fi.Name() + " " + src(r.P.Fset, e)
-				hi0 := e.High != nil
-				if hi0 {
-					v, okc := constInt(info, e.High)
-					hi0 = okc && v == 0
+			}
+		}
+		return false
+	})
+}
+
+// c06PathWithoutErrLook: a path from (b0,i0) reaches a normal exit of f without looking at msg.Err(); a Reset of the
+// message before the look also counts as such a path. When the message is a parameter and callers is set, leaving
+// the function is acceptable if every caller looks at Err after the call.
+func c06PathWithoutErrLook(p *core.Program, f *c01Fn, b0 *cfg.Block, i0 int, msgObj types.Object, depth int, callers bool) bool {
+	info := f.info
+	type st struct {
+		b *cfg.Block
+		i int
+	}
+	seen := map[*cfg.Block]bool{}
+	work := []st{{b0, i0}}
+	for len(work) > 0 {
+		cur := work[len(work)-1]
+		work = work[:len(work)-1]
+		stopped := false
+		for i := cur.i; i < len(cur.b.Nodes); i++ {
+			n := cur.b.Nodes[i]
+			if c06IsErrLook(p, f, n, msgObj, depth) {
+				stopped = true
+				break
+			}
+			reset := c01ContainsCall(n, func(call *ast.CallExpr) bool {
+				if !isMethod(callee(info, call), protoscanMsg, "Reset") {
+					return false
 				}
-				if e.Low == nil && hi0 && e.Max == nil {
-					r.OKTrivial(c, e.Pos(), "x[:0] is always in range")
-				} else {
-					r.Bad(c, e.Pos(), "slice expression with non-constant bounds has no proof in the idiom list")
+				sel, ok := ast.Unparen(call.Fun).(*ast.SelectorExpr)
+				return ok && c01RootObj(info, sel.X) == msgObj
+			})
+			if reset {
+				return true
+			}
+		}
+		if stopped {
+			continue
+		}
+		if len(cur.b.Succs) == 0 {
+			if !c01IsNormalExit(f, cur.b) {
+				continue
+			}
+			if callers && depth < 3 && c01ParamIndex(info, f.fi, msgObj) >= 0 && f.body == f.fi.Decl.Body {
+				idx := c01ParamIndex(info, f.fi, msgObj)
+				ncall := 0
+				bad := false
+				for _, caller := range allFuncs(f.pk) {
+					cf := c01FnOf(p, caller)
+					ast.Inspect(caller.Decl.Body, func(x ast.Node) bool {
+						call, ok := x.(*ast.CallExpr)
+						if !ok || callee(info, call) != f.fi.Obj || idx >= len(call.Args) {
+							return true
+						}
+						ncall++
+						ao := c01RootObj(info, call.Args[idx])
+						cfn := cf.innermost(call)
+						cb, ci := blockOf(cfn.g, call.Pos())
+						if ao == nil || cb == nil || c06PathWithoutErrLook(p, cfn, cb, ci+1, ao, depth+1, true) {
+							bad = true
+						}
+						return true
+					})
 				}
-			case *ast.StarExpr:
-				// explicit dereference of an optional message field
-				f := fieldOf(info, e.X)
-				if f == nil || !strings.HasSuffix(r.P.Fset.Position(f.Pos()).Filename, ".pb.go") {
-					return true
-				}
-				if _, isPtr := f.Type().(*types.Pointer); !isPtr {
-					return true
-				}
-				n++
-				lazy()
-				c := "deref@" + fi.Name() + " " + src(r.P.Fset, e)
-				if tag := fieldTag(f); strings.Contains(tag, ",req,") {
-					// the containing message must itself be known non-nil: guarded or required
-					r.OK(c, e.Pos(), "field %s is `required` in the descriptor (proto.Unmarshal rejects messages without it); enclosing message: %s", f.Name(), c06NilGuard(info, g, dom, e, ast.Unparen(e.X).(*ast.SelectorExpr).X))
-					if !strings.HasPrefix(c06NilGuard(info, g, dom, e, ast.Unparen(e.X).(*ast.SelectorExpr).X), "guarded") {
-						r.Bad(c+" parent", e.Pos(), "the message holding the required field is itself optional and not nil-tested")
-					}
-				} else if w := c06NilGuard(info, g, dom, e, e.X); strings.HasPrefix(w, "guarded") {
-					r.OK(c, e.Pos(), "optional field: %s", w)
-				} else {
-					r.Bad(c, e.Pos(), "optional field %s is dereferenced without a dominating nil test: a header without it crashes the process", f.Name())
+				if ncall > 0 && !bad {
+					continue
 				}
 			}
 			return true
-		})
-	}
-	r.Stat("index_slice_deref_sites", n)
-}
-
-// reachedFromSpawner: unit is called (transitively) from the spawner's own body.
-func (m *pbfModel) reachedFromSpawner(u *unit) bool {
-	su := m.units[m.start.Decl]
-	if u == su {
-		return true
-	}
-	return m.unitReaches(su, func(x *unit) bool { return x == u })
-}
-
-func fieldTag(f *types.Var) string {
-	// find the struct that declares f
-	if f.Pkg() == nil {
-		return ""
-	}
-	sc := f.Pkg().Scope()
-	for _, n := range sc.Names() {
-		tn, ok := sc.Lookup(n).(*types.TypeName)
-		if !ok {
-			continue
 		}
-		st, ok := tn.Type().Underlying().(*types.Struct)
-		if !ok {
-			continue
-		}
-		for i := 0; i < st.NumFields(); i++ {
-			if st.Field(i) == f {
-				return reflect.StructTag(st.Tag(i)).Get("protobuf") + ","
+		for _, nb := range cur.b.Succs {
+			if !seen[nb] {
+				seen[nb] = true
+				work = append(work, st{nb, 0})
 			}
 		}
-	}
-	return ""
-}
-
-// c06NilGuard: is the use dominated by the true edge of `target != nil`?
-func c06NilGuard(info *types.Info, g *cfg.CFG, dom map[*cfg.Block]map[*cfg.Block]bool, use ast.Node, target ast.Expr) string {
-	ub, _ := blockOf(g, use.Pos())
-	if ub == nil {
-		return "use not found"
-	}
-	for _, b := range g.Blocks {
-		if !b.Live || len(b.Succs) != 2 || b == ub || !dom[ub][b] {
-			continue
-		}
-		be, ok := ast.Unparen(lastExpr(b)).(*ast.BinaryExpr)
-		if !ok || be.Op != token.NEQ {
-			continue
-		}
-		if id, ok := ast.Unparen(be.Y).(*ast.Ident); !ok || id.Name != "nil" {
-			continue
-		}
-		if !sameExpr(info, be.X, target) {
-			continue
-		}
-		// use only reachable through the true edge
-		fl := reachableFrom([]*cfg.Block{b.Succs[1]}, func(x *cfg.Block) bool { return x == b })
-		if !fl[ub] {
-			return "guarded by `" + types.ExprString(be) + "`"
-		}
-	}
-	return "unguarded"
-}
-
-// c06IndexProof looks for a proof from the idiom list that e.Index is within e.X.
-func c06IndexProof(r *core.R, info *types.Info, fi *FuncInfo, g *cfg.CFG, dom map[*cfg.Block]map[*cfg.Block]bool, par map[ast.Node]ast.Node, e *ast.IndexExpr) (bool, string) {
-	// (a) constant index into a fixed-size array
-	if at, ok := info.TypeOf(e.X).Underlying().(*types.Array); ok {
-		if v, okc := constInt(info, e.Index); okc && v >= 0 && v < at.Len() {
-			return true, "constant index into a fixed-length array"
-		}
-	}
-	idxObj := objOf(info, e.Index)
-	// (b) range key over the same value
-	for p := par[e]; p != nil; p = par[p] {
-		if rs, ok := p.(*ast.RangeStmt); ok && rs.Key != nil && idxObj != nil && objOf(info, rs.Key) == idxObj && sameExpr(info, rs.X, e.X) {
-			return true, "index is the key of `range " + src(r.P.Fset, rs.X) + "`"
-		}
-		// (c) for i := A; i < len(x); i++
-		if fs, ok := p.(*ast.ForStmt); ok && fs.Cond != nil && idxObj != nil {
-			if be, ok := ast.Unparen(fs.Cond).(*ast.BinaryExpr); ok && be.Op == token.LSS && objOf(info, be.X) == idxObj {
-				if la := lenCallArg(info, be.Y); la != nil && sameExpr(info, la, e.X) {
-					if post, ok := fs.Post.(*ast.IncDecStmt); ok && post.Tok == token.INC && objOf(info, post.X) == idxObj &&
-						countAssignsTo(info, fs.Body, idxObj, fs.Body.Pos(), fs.Body.End()) == 0 && c06NonNegInit(info, fs.Init) {
-						return true, "loop counter bounded by `" + src(r.P.Fset, fs.Cond) + "`"
-					}
-				}
-			}
-		}
-	}
-	ub, _ := blockOf(g, e.Pos())
-	if ub == nil {
-		return false, "use not located in the control-flow graph"
-	}
-	// (d) dominating guard `i >= len(x)` (optionally `i < 0 ||`) with an exit edge
-	nonNeg := false
-	if bt, ok := info.TypeOf(e.Index).Underlying().(*types.Basic); ok && bt.Info()&types.IsUnsigned != 0 {
-		nonNeg = true
-	}
-	if idxObj != nil && c06IsCounter(info, fi, idxObj) {
-		nonNeg = true
-	}
-	for _, b := range g.Blocks {
-		if !b.Live || len(b.Succs) != 2 || b == ub || !dom[ub][b] {
-			continue
-		}
-		cond := lastExpr(b)
-		if cond == nil {
-			continue
-		}
-		var disj []ast.Expr
-		var split func(x ast.Expr)
-		split = func(x ast.Expr) {
-			x = ast.Unparen(x)
-			if be, ok := x.(*ast.BinaryExpr); ok && be.Op == token.LOR {
-				split(be.X)
-				split(be.Y)
-				return
-			}
-			disj = append(disj, x)
-		}
-		split(cond)
-		upper, lower := false, nonNeg
-		for _, d := range disj {
-			be, ok := d.(*ast.BinaryExpr)
-			if !ok {
-				continue
-			}
-			switch be.Op {
-			case token.GEQ:
-				if sameExpr(info, stripConv(info, be.X), stripConv(info, e.Index)) {
-					if la := lenCallArg(info, stripConv(info, be.Y)); la != nil && sameExpr(info, la, e.X) {
-						upper = true
-					}
-				}
-			case token.LEQ:
-				if sameExpr(info, stripConv(info, be.Y), stripConv(info, e.Index)) {
-					if la := lenCallArg(info, stripConv(info, be.X)); la != nil && sameExpr(info, la, e.X) {
-						upper = true
-					}
-				}
-			case token.LSS:
-				if v, okc := constInt(info, be.Y); okc && v == 0 && sameExpr(info, stripConv(info, be.X), stripConv(info, e.Index)) {
-					lower = true
-				}
-			}
-		}
-		if !upper {
-			continue
-		}
-		tr := reachableFrom([]*cfg.Block{b.Succs[0]}, func(x *cfg.Block) bool { return x == b })
-		if tr[ub] {
-			continue
-		}
-		if !lower {
-			return false, "guard `" + src(r.P.Fset, cond) + "` bounds the index above, but the index is signed and can be negative (no `< 0` test, not a counter)"
-		}
-		if idxObj != nil && countAssignsTo(info, fi.Decl.Body, idxObj, cond.End(), e.Pos()) > 0 {
-			continue
-		}
-		if ro := rootObj(info, e.X); ro != nil && countAssignsTo(info, fi.Decl.Body, ro, cond.End(), e.Pos()) > 0 {
-			continue
-		}
-		return true, "dominated by `" + src(r.P.Fset, cond) + "`, whose true edge leaves without reaching the use"
-	}
-	// (e) counter into a buffer sized by Count of the iterator that is read once per increment
-	if idxObj != nil {
-		if ok, why := c06CountAxiom(r, info, fi, par, e, idxObj); ok {
-			return true, why
-		}
-	}
-	return false, "`" + src(r.P.Fset, e) + "` has no bounds proof (no constant/range/loop-counter form, no dominating `" + src(r.P.Fset, e.Index) + " >= len(" + src(r.P.Fset, e.X) + ")` guard with an error exit, not a counter into a buffer sized by Count of the iterator driving the loop)"
-}
-
-func stripConv(info *types.Info, e ast.Expr) ast.Expr {
-	e = ast.Unparen(e)
-	if call, ok := e.(*ast.CallExpr); ok && len(call.Args) == 1 {
-		if tv, ok := info.Types[call.Fun]; ok && tv.IsType() {
-			if bt, ok := tv.Type.Underlying().(*types.Basic); ok && bt.Info()&types.IsInteger != 0 {
-				return stripConv(info, call.Args[0])
-			}
-		}
-	}
-	return e
-}
-
-func c06NonNegInit(info *types.Info, init ast.Stmt) bool {
-	as, ok := init.(*ast.AssignStmt)
-	if !ok || len(as.Rhs) != 1 {
-		return false
-	}
-	if v, okc := constInt(info, as.Rhs[0]); okc {
-		return v >= 0
-	}
-	// i := x.Index where Index is a byte offset maintained by the library (non-negative int): accept selector of int field `Index`
-	if f := fieldOf(info, as.Rhs[0]); f != nil && f.Name() == "Index" {
-		return true
 	}
 	return false
 }
 
-// c06IsCounter: variable is declared zero (var / := 0) and only ever modified by `++`.
-func c06IsCounter(info *types.Info, fi *FuncInfo, o types.Object) bool {
-	okDecl := false
-	bad := false
-	ast.Inspect(fi.Decl.Body, func(n ast.Node) bool {
-		switch s := n.(type) {
-		case *ast.ValueSpec:
-			for i, nm := range s.Names {
-				if info.Defs[nm] == o {
-					if len(s.Values) == 0 {
-						okDecl = true
-					} else if v, okc := constInt(info, s.Values[i]); okc && v == 0 {
-						okDecl = true
-					}
-				}
-			}
-		case *ast.AssignStmt:
-			for i, l := range s.Lhs {
-				if id, ok := l.(*ast.Ident); ok && (info.Defs[id] == o || info.Uses[id] == o) {
-					if s.Tok == token.DEFINE && i < len(s.Rhs) {
-						if v, okc := constInt(info, s.Rhs[i]); okc && v == 0 {
-							okDecl = true
-							continue
-						}
-					}
-					bad = true
-				}
-			}
-		case *ast.IncDecStmt:
-			if objOf(info, s.X) == o && s.Tok != token.INC {
-				bad = true
-			}
-		case *ast.UnaryExpr:
-			if s.Op == token.AND && objOf(info, s.X) == o {
-				bad = true
-			}
-		}
-		return true
-	})
-	return okDecl && !bad
-}
-
-// c06CountAxiom: x := make(T, it.Count(W)); for it.HasNext() { v, err := it.Read(); if err != nil {return}; ... x[idx] ...; idx++ }
-func c06CountAxiom(r *core.R, info *types.Info, fi *FuncInfo, par map[ast.Node]ast.Node, e *ast.IndexExpr, idx types.Object) (bool, string) {
-	xo := objOf(info, e.X)
-	if xo == nil || !c06IsCounter(info, fi, idx) {
-		return false, ""
-	}
-	// single definition of x: make(T, IT.Count(...))
-	var itExpr ast.Expr
-	ndef := 0
-	ast.Inspect(fi.Decl.Body, func(n ast.Node) bool {
-		as, ok := n.(*ast.AssignStmt)
-		if !ok {
-			return true
-		}
-		for i, l := range as.Lhs {
-			if objOf(info, l) != xo {
-				continue
-			}
-			ndef++
-			if i < len(as.Rhs) {
-				if call, ok := as.Rhs[i].(*ast.CallExpr); ok && builtinName(info, call) == "make" && len(call.Args) == 2 {
-					if c2, ok := ast.Unparen(call.Args[1]).(*ast.CallExpr); ok && isMethod(callee(info, c2), "github.com/paulmach/protoscan.Iterator", "Count") {
-						itExpr = c2.Fun.(*ast.SelectorExpr).X
-					}
-				}
-			}
-		}
-		return true
-	})
-	if ndef != 1 || itExpr == nil {
-		return false, ""
-	}
-	// enclosing loop: for IT.HasNext()
-	var loop *ast.ForStmt
-	for p := par[e]; p != nil; p = par[p] {
-		if fs, ok := p.(*ast.ForStmt); ok {
-			loop = fs
-			break
-		}
-	}
-	if loop == nil || loop.Cond == nil {
-		return false, ""
-	}
-	hc, ok := ast.Unparen(loop.Cond).(*ast.CallExpr)
-	if !ok || !isMethod(callee(info, hc), "github.com/paulmach/protoscan.Iterator", "HasNext") || !sameExpr(info, hc.Fun.(*ast.SelectorExpr).X, itExpr) {
-		return false, ""
-	}
-	// in the loop body, before the use: a read of IT whose error returns; exactly one idx++ at top level of the body, after the use
-	readOK := false
-	for _, st := range loop.Body.List {
-		if st.Pos() > e.Pos() {
-			break
-		}
-		as, ok := st.(*ast.AssignStmt)
-		if !ok || len(as.Rhs) != 1 {
-			continue
-		}
-		call, ok := as.Rhs[0].(*ast.CallExpr)
-		if !ok {
-			continue
-		}
-		sel, ok := call.Fun.(*ast.SelectorExpr)
-		if !ok || !sameExpr(info, sel.X, itExpr) {
-			continue
-		}
-		if errReturnedAfter(info, par, call) {
-			readOK = true
-		}
-	}
-	incs := 0
-	for _, st := range loop.Body.List {
-		if ids, ok := st.(*ast.IncDecStmt); ok && objOf(info, ids.X) == idx && ids.Tok == token.INC && st.Pos() > e.Pos() {
-			incs++
-		}
-	}
-	nestedInc := 0
-	ast.Inspect(loop.Body, func(n ast.Node) bool {
-		if ids, ok := n.(*ast.IncDecStmt); ok && objOf(info, ids.X) == idx {
-			nestedInc++
-		}
-		return true
-	})
-	if readOK && incs == 1 && nestedInc == 1 {
-		return true, "counter `" + idx.Name() + "` into `" + xo.Name() + " = make(_, " + src(r.P.Fset, itExpr) + ".Count(...))`, advanced once per successful read of the same iterator (Count axiom)"
-	}
-	return false, ""
-}
-
-// ---------------------------------------------------------------- E7
-
-func c06E7(r *core.R) {
-	m := modelOrAnchor(r)
-	if m == nil {
-		return
-	}
-	info := m.info
-	for _, u := range m.sortedUnits() {
-		if !(u.roles["worker"] || u.roles["reader"] || u.roles["serializer"]) {
-			continue
-		}
-		if fd, ok := u.node.(*ast.FuncDecl); ok && isGenerated(r.P, fd.Pos()) {
-			continue
-		}
-		c := "unit@" + u.name
-		bad := ""
-		var bpos token.Pos
-		m.walkUnit(u, func(n ast.Node) bool {
-			switch x := n.(type) {
-			case *ast.CallExpr:
-				if builtinName(info, x) == "panic" {
-					bad, bpos = "calls panic: `"+src(r.P.Fset, x)+"`", x.Pos()
-				}
-			case *ast.TypeAssertExpr:
-				if x.Type == nil {
-					return true // type switch
-				}
-				par := parentsOf(r.P, u.fi)
-				commaOK := false
-				if as, ok := par[x].(*ast.AssignStmt); ok && len(as.Lhs) == 2 {
-					commaOK = true
-				}
-				if vs, ok := par[x].(*ast.ValueSpec); ok && len(vs.Names) == 2 {
-					commaOK = true
-				}
-				if !commaOK {
-					bad, bpos = "has a type assertion without ok: `"+src(r.P.Fset, x)+"`", x.Pos()
-				}
-			}
-			return true
-		})
-		if bad != "" {
-			r.Bad(c, bpos, "%s %s, reachable in role(s) %v: input that reaches it crashes the calling process instead of ending the scan with an error", u.name, bad, rolesOf(u))
-		} else {
-			r.OKTrivial(c, u.node.Pos(), "no panic call and no unchecked type assertion (roles %v)", rolesOf(u))
-		}
-	}
-}
-
-// ---------------------------------------------------------------- E8
-
-func c06E8(r *core.R) {
-	for _, rel := range []string{"osmpbf", "osmxml"} {
-		pk := r.P.Pkg(rel)
-		fi := findFunc(pk, "(*Scanner).Err")
-		if fi == nil {
-			r.Anchor(rel + ".(*Scanner).Err")
-			continue
-		}
-		c := rel + ".(*Scanner).Err nil only for io.EOF"
-		chain, why := parseErrChain(pk, fi)
-		if why != "" {
-			r.Unknown(c, fi.Decl.Pos(), "Err is not a chain of `if COND { return V }`: %s", why)
-			continue
-		}
-		ok := len(chain) > 0 && chain[0] == errStep{"err==EOF", "nil"}
-		for _, st := range chain[1:] {
-			if st.ret == "nil" {
-				ok = false
-			}
-		}
-		r.Check(ok, c, fi.Decl.Pos(), "the only branch returning nil is `s.err == io.EOF`", fmt.Sprintf("Err returns nil for something other than a stored io.EOF: %v — an error other than end-of-input would be reported as success", chain))
-	}
+// c06ErrLooked: from (b,i) every path looks at msg.Err() before leaving.
+func c06ErrLooked(p *core.Program, f *c01Fn, b *cfg.Block, i int, msgObj types.Object, depth int) bool {
+	return !c06PathWithoutErrLook(p, f, b, i, msgObj, depth, true)
 }
